@@ -2,6 +2,7 @@ package checks
 
 import (
 	"fmt"
+	"strings"
 
 	"github.com/transparency-dev/witness/internal/persistence"
 	"github.com/transparency-dev/witness/verifmc/lspwrap"
@@ -123,6 +124,9 @@ func c01(tier string) int {
 	}
 	// Concurrent leg: conflicting first use and a fork race at 4 -> 6.
 	c05Concurrent(run, "C01", tier)
+	// Fault leg: every single storage fault in the C07 histories; everything
+	// returned as accepted must lie on one history.
+	runFaults(run, "C01", tier, false)
 	for _, k := range []string{"first-use", "growth", "refresh"} {
 		if run.HistGet("accepted_kinds", k) == 0 {
 			run.Vacuous("no accepted %s step was explored", k)
@@ -169,19 +173,20 @@ func c04(tier string) int {
 	// line + J unknown lines + one line per witness key): the largest J that
 	// still fits must be cosigned with the log's line intact, one more must be
 	// refused.
-	shapes := []string{"plain", "ext", "junk1", "otherlog", "stale-own-valid", "stale-own-invalid", "dup-logsig", "junk96", "junk97", "junk98", "junk99", "bigext70", "sizepad", "looseb64"}
+	shapes := []string{"plain", "ext", "junk1", "otherlog", "stale-own-valid", "stale-own-invalid", "dup-logsig", "junk96", "junk97", "junk98", "junk99", "bigext70", "sizepad", "looseb64", "namesake-future", "namesake-legacy"}
 	n := 6
 	if tier == "thorough" {
 		n = 9
 	}
 	p := searchPlan{n: n, divs: []int{3}, stores: []string{"mem", "sql"}, reps: 2,
-		signers: [][]string{{"cosig"}, {"legacy", "cosig"}, {"legacy", "cosig", "cosig2"}},
+		signers: [][]string{{"cosig"}, {"legacy", "cosig"}, {"legacy", "cosig", "cosig2"}, {"legacy-logname", "cosig-logname"}},
 		alpha:   wh.AlphaOpts{MaxN: n, Shapes: shapes}}
 	runPlan(run, p, c04Monitor(run, true), nil)
 	// One configuration on the real wall clock with the inclusive window.
 	c04WallClock(run)
 	wh.InstallLogicalClock()
-	for nk, sg := range []string{"cosig", "legacy+cosig", "legacy+cosig+cosig2"} {
+	for _, sgs := range p.signers {
+		sg, nk := strings.Join(sgs, "+"), len(sgs)-1
 		for _, sh := range shapes {
 			var j int
 			if n, _ := fmt.Sscanf(sh, "junk%d", &j); n == 1 && 1+j+nk+1 > 100 {
@@ -195,7 +200,7 @@ func c04(tier string) int {
 		}
 	}
 	run.Set("exhaustive", true)
-	run.Set("rule", fmt.Sprintf("explicit-state BFS (sizes 0..%d, main + fork at 3) for witness key sets {cosig/v1}, {legacy, cosig/v1}, {legacy, cosig/v1, second cosig/v1} x checkpoint shapes %v x both stores; on every accepted transition: returned text == text the log signed, log signature verifies, signature block parsed line by line holds exactly one valid line per witness key, cosignature/v1 timestamp inside the logical-clock window of this call (every Sign gets a fresh second, so a reused signature is caught), GetCheckpoint == returned bytes == stored bytes. distinct_nontrivial = distinct (store, signers, shape, kind, from, to)", n, shapes))
+	run.Set("rule", fmt.Sprintf("explicit-state BFS (sizes 0..%d, main + fork at 3) for witness key sets {cosig/v1}, {legacy, cosig/v1}, {legacy, cosig/v1, second cosig/v1}, {legacy, cosig/v1 of a witness key that has the NAME of the log key} x checkpoint shapes %v x both stores; on every accepted transition: returned text == text the log signed, log signature verifies, signature block parsed line by line holds exactly one valid line per witness key, cosignature/v1 timestamp inside the logical-clock window of this call (every Sign gets a fresh second, so a reused signature is caught), GetCheckpoint == returned bytes == stored bytes. distinct_nontrivial = distinct (store, signers, shape, kind, from, to)", n, shapes))
 	run.Assumption("logical clock replaces time.Now() inside the cosignature/v1 signer (overlay of formats/note/note_cosigv1.go changes only the time source); one configuration also runs on the wall clock")
 	return run.Finish()
 }
